@@ -189,25 +189,53 @@ func genC16Eips(t *rapid.T) *Scenario {
 			cand = append(cand, e)
 		}
 	}
+	// T's own extra EIPs: none (half of the cases) or a subset; the unrelated execution
+	// gets ANOTHER non-empty subset on the same fork
+	subset := func(label string) []int {
+		var out []int
+		for _, e := range cand {
+			if rapid.Bool().Draw(t, label) {
+				out = append(out, e)
+			}
+		}
+		return out
+	}
+	var own []int
+	if rapid.Bool().Draw(t, "owneips") {
+		own = subset("owneip")
+	}
+	extra := subset("eip")
+	if len(extra) == 0 || fmt.Sprint(extra) == fmt.Sprint(own) {
+		extra = nil
+		for _, e := range cand {
+			in := false
+			for _, x := range own {
+				in = in || x == e
+			}
+			if !in {
+				extra = append(extra, e)
+				break
+			}
+		}
+		if len(extra) == 0 {
+			extra, own = own, nil
+		}
+	}
 	var focus []byte
-	tab := OpTableFor(fork, nil)
+	tab := OpTableFor(fork, own)
+	foreign := OpTableFor(fork, extra)
 	for _, op := range []byte{SLOAD, BALANCE, EXTCODESIZE, EXTCODEHASH, SSTORE, PUSH0, BASEFEE, CHAINID, SELFBALANCE, EXTCODECOPY} {
-		// the ones this fork does not define are the ones an extra EIP would add: keep a few of those too
-		if tab[op].Defined || chance(t, 15, "undefinedop") {
+		// opcodes T's configuration does not define but the other one does are the
+		// interesting ones: if anything leaks they start to work
+		if tab[op].Defined || (foreign[op].Defined && chance(t, 60, "foreignop")) || chance(t, 10, "undefinedop") {
 			focus = append(focus, op)
 		}
 	}
-	sc := GenProgScenario(t, ProgCfg{Fork: fork, Extra: []int{}, Focus: focus, FocusPct: 35, NoArtelaPre: true})
+	if own == nil {
+		own = []int{}
+	}
+	sc := GenProgScenario(t, ProgCfg{Fork: fork, Extra: own, Focus: focus, FocusPct: 35, NoArtelaPre: true})
 	ex := c16TxExtra{Reps: 3, Family: "eips", HostValue: []byte{1}}
-	var extra []int
-	for _, e := range cand {
-		if rapid.Bool().Draw(t, "eip") {
-			extra = append(extra, e)
-		}
-	}
-	if len(extra) == 0 {
-		extra = append(extra, cand[uniform(t, 0, len(cand)-1, "eip1")])
-	}
 	o := GenProgScenario(t, ProgCfg{Fork: fork, Extra: extra, Contracts: 1, MaxSnips: 3, NoArtelaPre: true})
 	ex.Other = o
 	sc.Extra, _ = json.Marshal(ex)
